@@ -253,6 +253,32 @@ def r4(ctx):
         else:
             ctx.ok(rule, key, detail)
     ctx.floor(rule, k, "C13.R4.consumptions")
+    # a comment delimiter that was recognised by look-ahead is consumed: every change of the nesting level that follows a peek
+    # goes together with a next() in the same branch (otherwise the second character of `/*` / `*/` is looked at again and can
+    # pair up with its neighbour: `/*/`)
+    lvl = [l for l, nme in (b.names or {}).items() if nme == "nest_lvl"]
+    changes = []
+    for bb, j, st in b.all_statements():
+        if st["k"] == "assign" and not st["pl"]["p"] and st["pl"]["l"] in lvl and st["rv"]["k"] in ("bin", "use", "field"):
+            if st["rv"]["k"] == "use" and st["rv"]["op"].get("k") == "const":
+                continue        # initialisation
+            changes.append((bb, span_loc(st["sp"])))
+    m = 0
+    for bb, loc in changes:
+        pk = [p for p in peeks if p.bb != bb and b.dominates(p.bb, bb)]
+        if not pk:
+            continue
+        m += 1
+        near = max(pk, key=lambda p: len(b.dom.get(p.bb, ())))
+        cons = [n for n in nexts if n is not head[0] and b.dominates(near.bb, n.bb) and (b.dominates(bb, n.bb) or b.dominates(n.bb, bb) or n.bb == bb)]
+        d = {"nesting_level_changed_at": loc, "recognised_by_peek_at": near.loc(), "consumed_at": [n.loc() for n in cons]}
+        if not cons:
+            ctx.fail(rule, "delimiter-consumed#%d" % m, "the comment nesting level changes after a look-ahead matched, but the matched "
+                                                        "character is not consumed: it is examined again and can act as half of another "
+                                                        "delimiter (`/*/`)", loc, d)
+        else:
+            ctx.ok(rule, "delimiter-consumed#%d" % m, d)
+    ctx.floor(rule, m, "C13.R4.delimiters")
 
 
 def run(ctx):
